@@ -673,8 +673,23 @@ def nontrivial(inp):
 # ---------------------------------------------------------------------------------------------------
 # histories
 
+def fresh_library():
+    """re-execute every mir_eval module: any module-level state (caches, counters, patched tables) is reset, so the
+    next call really is 'in isolation'"""
+    import sys
+    names = sorted(n for n in sys.modules if n == "mir_eval" or n.startswith("mir_eval."))
+    for n in sorted(names, key=lambda x: (x != "mir_eval.util", x)):
+        if n in ("mir_eval", "mir_eval.display"):
+            continue
+        try:
+            importlib.reload(sys.modules[n])
+        except Exception:  # noqa: BLE001
+            pass
+
+
 def check_history(inp):
-    """calls from several modules on shared argument objects, in several orders, vs isolated calls"""
+    """calls from several modules on shared argument objects, in several orders, vs isolated calls (isolated = first
+    call after the library's module-level state has been reset)"""
     rng = random.Random(inp["seed"])
     quals = inp["fns"]
     calls = []
@@ -689,6 +704,7 @@ def check_history(inp):
     iso = []
     for q, (a, k) in calls:
         a2, k2 = copy.deepcopy((a, k))
+        fresh_library()
         iso.append(run(get_function(q), a2, k2))
     shared_before = [snap(c[1]) for c in calls]
     orders = [list(range(len(calls))), list(reversed(range(len(calls))))]
@@ -697,6 +713,7 @@ def check_history(inp):
     orders.append(sh)
     orders.append([i for pair in zip(sh, reversed(sh)) for i in pair])        # interleaved, with repeats
     for order in orders:
+        fresh_library()
         for i in order:
             q, (a, k) = calls[i]
             r = run(get_function(q), a, k)
@@ -731,7 +748,7 @@ def _gen_for(qual):
 
 def _gen_history(rng, tier, shard, nshards, boost):
     pubs = [q for q in public_functions() if not q.startswith("separation.") and q not in KNOWN_IMPURE]
-    n = (16 if tier == "quick" else 640) * boost
+    n = (8 if tier == "quick" else 320) * boost
     for i in range(n):
         if i % nshards != shard:
             continue
@@ -745,10 +762,30 @@ INIT_FLAGGED = {"separation.bss_eval_images_framewise"}
 KNOWN_IMPURE = {"melody.freq_to_voicing", "melody.to_cent_voicing", "melody.evaluate", "util.adjust_intervals",
                 "util.adjust_events", "chord.evaluate"}
 
+def _gen_history_module(module):
+    """call sequences inside ONE module (a module-level cache or counter is the most plausible hidden state): many
+    calls drawing their arguments from the same small vocabularies (e.g. the same extended chord label reaching
+    encode() once with and once without reduce_extended_chords)"""
+    def gen(rng, tier, shard, nshards, boost):
+        pubs = [q for q in public_functions() if q.startswith(module + ".") and q not in KNOWN_IMPURE]
+        if len(pubs) < 2:
+            return
+        n = (3 if tier == "quick" else 100) * boost
+        for i in range(n):
+            if i % nshards != shard:
+                continue
+            k = rng.randint(6, 14)
+            yield {"fns": [rng.choice(pubs) for _ in range(k)], "seed": rng.randint(0, 2 ** 20)}
+    return gen
+
+
 CHECKERS = {q: check_call for q in public_functions()}
 CHECKERS["history"] = check_history
 ORACLES = {q: _gen_for(q) for q in public_functions()}
 ORACLES["history"] = _gen_history
+for _m in sorted({q.split(".")[0] for q in public_functions()} - {"separation"}):
+    CHECKERS["history:" + _m] = check_history
+    ORACLES["history:" + _m] = _gen_history_module(_m)
 
 
 # correspondence: the Lean analysis (driver) vs the Python port that proposed the table vs what is observed
